@@ -1,0 +1,10 @@
+//go:build verif
+
+// Contracts for package config (HTTP provider options), checked by /verif/govc. Comment-only: no code.
+package config
+
+//@ func (d DecoderType) IsValid
+//@ props C14 C17 C07
+//@ pure
+//@ modifies nothing
+//@ ensures [the-four-formats] result == (d == DecoderURI || d == DecoderURIPost || d == DecoderRaw || d == DecoderJSONLine)
